@@ -126,6 +126,7 @@ def generate(tier):
                     cases.append({"net": net, "ks": list(ks), "c": c, "y0": y0m, "tol": tol, "rel": rel, "via": "simulator", "stable": True})
                 for y0m, rel in it.product(("default", "high"), (False, True)):
                     cases.append({"net": net, "ks": list(ks), "c": c, "y0": y0m, "tol": 1e-6, "rel": rel, "via": "scan", "stable": True})
+                    cases.append({"net": net, "ks": list(ks), "c": c, "y0": y0m, "tol": 1e-6, "rel": rel, "via": "simulator-continued", "stable": True})
     for net, ks_list, cs in (("influx-only", [[0.0]], [0.001, 1.0, 2.0]), ("noefflux", [[k] for k in rates], [1.0, 2.0]),
                              ("growth", [[0.02], [0.1], [1.0]], [0.0])):
         for ks in ks_list:
@@ -136,6 +137,7 @@ def generate(tier):
                     cases.append({"net": net, "ks": ks, "c": c, "y0": y0m, "tol": tol, "rel": rel, "via": "simulator", "stable": False})
                 for rel in (False, True):
                     cases.append({"net": net, "ks": ks, "c": c, "y0": "default", "tol": 1e-6, "rel": rel, "via": "scan", "stable": False})
+                    cases.append({"net": net, "ks": ks, "c": c, "y0": "default", "tol": 1e-6, "rel": rel, "via": "simulator-continued", "stable": False})
     return cases
 
 
@@ -162,8 +164,11 @@ def check(case):
     state = None
     fluxes = None
     try:
-        if case["via"] == "simulator":
-            res = Simulator(m, y0=y0).simulate_to_steady_state(tolerance=case["tol"], rel_norm=case["rel"]).get_result()
+        if case["via"] in ("simulator", "simulator-continued"):
+            sim = Simulator(m, y0=y0)
+            if case["via"] == "simulator-continued":
+                sim.simulate(5.0, steps=5)  # an earlier, successful segment
+            res = sim.simulate_to_steady_state(tolerance=case["tol"], rel_norm=case["rel"]).get_result()
             if isinstance(res.value, Exception):
                 success = False
             else:
